@@ -334,7 +334,7 @@ impl<'a> Gen<'a> {
   fn items(&mut self, scope: &mut Scope, lang: Lang, depth: usize, top: Option<usize>, in_ambient: bool) -> String {
     let mut out = String::new();
     let p = ind(depth);
-    let n_items = if depth == 0 { self.rng.range(2, 9) } else { self.rng.range(0, 4) };
+    let n_items = if depth == 0 { self.rng.range(2, 7) } else { self.rng.range(0, 4) };
     let declare = if lang == Lang::Dts && depth == 0 { "declare " } else { "" };
     let ambient = in_ambient || lang == Lang::Dts;
     for _ in 0..n_items {
